@@ -504,4 +504,4 @@ pub fn process_grammar<P: AsRef<Path>>(grammar: P) -> Result<()> {
 // Verification hook: compiled only by `cargo kani` (cfg(kani)); see /verif/MANIFEST.json.
 #[cfg(kani)]
 #[path = "/verif/units/kx/compiler/settings.rs"]
-mod verif_kani_settings;
+pub(crate) mod verif_kani_settings;
